@@ -344,18 +344,18 @@ def main():
         else:
             pool = list(main_t)
             chosen = []
-            for _ in range(44):
+            for _ in range(32):
                 chosen.append(pool.pop(rng.below(len(pool))))
             # always: the shapes of the known numa-balanced witnesses and some of the odd shapes
             chosen += [t for t in main_t if t[0] in ('pack:3 core:2 pu:2', 'pack:2 core:2 pu:2') and t not in chosen]
             ex = list(extra_t)
             for _ in range(10):
                 chosen.append(ex.pop(rng.below(len(ex))))
-        chosen += asym_variants(rng, 60 if tr == 'thorough' else 12)
+        chosen += asym_variants(rng, 60 if tr == 'thorough' else 8)
         budget_div = [40 if tr == 'thorough' else 6]
         for ti, (synth, model) in enumerate(chosen):
             jobs.append((synth, gen_cases(rng, synth, model, tr, f's{base_seed}g{ti}', budget_div), f'g{ti}'))
-        nlive = 400 if tr == 'thorough' else 60
+        nlive = 400 if tr == 'thorough' else 40
         for li in range(4):
             jobs.append(('live', gen_live(rng, nlive // 4, f's{base_seed}L{li}'), f'L{li}'))
 
@@ -444,7 +444,7 @@ TRUSTED = TRUSTED_BASE[:1] + [
     "std::round(double(a)/double(b)) is modelled as (2a+b)/(2b) on naturals (exact for operands below 2^26)",
     "harness harness/e0/affinity.cpp, the line comparison in lean/Driver/AffDrv.lean, non-termination detected by a CPU-time limit (0.3 s user time for a microsecond computation)",
 ]
-RULE = ("machine shapes pack:1-4 x core:1-8 x pu:1-4 (quick: 44 drawn + fixed witnesses; thorough: all 128) plus shapes with numa/l3 levels, without package "
+RULE = ("machine shapes pack:1-4 x core:1-8 x pu:1-4 (quick: 32 drawn + fixed witnesses; thorough: all 128) plus shapes with numa/l3 levels, without package "
         "objects and without core objects; per shape: process mask all / random subset / one PU per core / prefix cut inside a core / last hardware thread of "
         "every core / socket 0 plus one PU; mask used and ignored; thread counts 1..#available+1 (quick: 10 per mask on big shapes); modes compact, scatter, "
         "balanced, numa-balanced, none; max_cores/used_cores varied. non-trivial = at least 2 threads requested or the request was rejected; distinct = distinct "
